@@ -1237,6 +1237,10 @@ def build_item(cur, log):
         pre_ = "#[verifier::exec_allows_no_decreases_clause]\n"
         t, offs = pre_ + t, [None] * len(pre_) + offs
         log.append(("noterm", where, "termination not proved (exec_allows_no_decreases_clause)"))
+    if opts.get("spinoff") or os.environ.get("VERIF_SPINOFF_ALL"):
+        # own solver process for this function: its query no longer depends on what was verified before it in the file
+        pre_ = "#[verifier::spinoff_prover]\n"
+        t, offs = pre_ + t, [None] * len(pre_) + offs
     fmeta["main_lines"] = t.count("\n") + 1
     if fmeta["has_requires"] and "novac" not in pos and "novac" not in opts:
         rendered_sig, _ = _render_sig_only(text, toks, k_name, k_body, opts, sig_txt, has_ret)
